@@ -671,8 +671,11 @@ func genBytes(r *coqfmt.Rand, id int) Case {
 	case 4: // extended header with an absurd length (D17)
 		l := []uint64{1 << 63, 0xffffffffffffffff, 1 << 40, 1 << 32, 5}[r.Intn(5)]
 		raw = extFrame([]string{"tx", "block", "foobar"}[r.Intn(3)], []byte{1, 2, 3, 4, 5}, l)
-	case 5: // hostile counts: varint 2^40 in headers / inv / addr / tx inputs
+	case 5: // hostile counts: varint 2^40 or 2^64-1 in headers / inv / addr / tx inputs
 		big := []byte{0xff, 0, 0, 0, 0, 0, 1, 0, 0}
+		if r.Chance(1, 3) { // 2^64-1: beyond what a slice can be sized to at all
+			big = []byte{0xff, 0xff, 0xff, 0xff, 0xff, 0xff, 0xff, 0xff, 0xff}
+		}
 		cmd := []string{"headers", "inv", "addr", "tx", "tx_script", "tx_outputs", "block_txs", "reject", "version"}[r.Intn(9)]
 		p := append([]byte{}, big...)
 		switch cmd {
